@@ -108,12 +108,13 @@ type Contracts struct {
 	Lemmas   []*Clause
 	Abstract map[string]*AbstractType // key: importpath.Name
 	Types    map[string]*TypeSpec
+	PtrIfaces map[string]bool // interfaces whose dynamic values are always pointers
 	Files    []string
 	Errors   []string
 }
 
 func NewContracts() *Contracts {
-	return &Contracts{Funcs: map[string]*FuncSpec{}, Specs: map[string]*SpecFunc{}, Abstract: map[string]*AbstractType{}, Types: map[string]*TypeSpec{}}
+	return &Contracts{Funcs: map[string]*FuncSpec{}, Specs: map[string]*SpecFunc{}, Abstract: map[string]*AbstractType{}, Types: map[string]*TypeSpec{}, PtrIfaces: map[string]bool{}}
 }
 
 var headWords = map[string]bool{
@@ -122,7 +123,7 @@ var headWords = map[string]bool{
 	"modifies": true, "panics": true, "decreases": true, "pure": true, "log": true, "logs": true, "loop": true,
 	"invariant": true, "trusted": true, "source": true, "nobody": true, "lock": true, "shared": true,
 	"ghost": true, "chan": true, "params": true, "creates": true, "consumes": true, "havoc": true, "assert": true,
-	"holds": true, "waitset": true, "immutable": true,
+	"holds": true, "waitset": true, "immutable": true, "ptriface": true,
 }
 
 type rawLine struct {
@@ -220,6 +221,9 @@ func (cs *Contracts) LoadContractFile(path, pkgPath string, pkgImports map[strin
 				p := strings.Trim(fs[0], `"`)
 				ctx.Imports[filepath.Base(p)] = p
 			}
+		case "ptriface":
+			cs.PtrIfaces[cs.qualify(ctx, strings.TrimSpace(rest))] = true
+			curF, curL, curT = nil, nil, nil
 		case "spec":
 			cs.parseSpecFunc(ctx, c.line, rest)
 			curF, curL, curT = nil, nil, nil
